@@ -29,7 +29,7 @@ struct Mem {
 };
 
 struct Opnd {
-  enum Kind { kReg, kMem, kImm } kind = kReg;
+  enum Kind { kReg, kMem, kImm, kRel } kind = kReg;      // kRel: a code label (bound at offset 0 of the same section) for rel8/rel32 operands
   Reg reg;
   Mem mem;
   int64_t imm = 0;
@@ -138,6 +138,10 @@ struct Choices {
   bool chance(int num, int den) { return pick(den) < num; }
 };
 
+// rel8/rel32 operands are instantiated (as a label bound at the instruction) only by harnesses that ask for it (C13); the byte-level
+// judges (C01) leave displacement fields to C03.
+inline bool& allow_rel_operands() { static bool v = false; return v; }
+
 inline int64_t pick_disp(Choices& c, int scaleN) {
   // displacement boundary set incl. disp8*N boundaries
   int64_t n = scaleN > 0 ? scaleN : 1;
@@ -203,7 +207,10 @@ inline XInst instantiate(const xdb::Form& f, int mode, Choices& c, bool allow_op
     if (d.implicit && d.immValue.empty()) continue;
     Opnd o;
     o.db_index = int(oi);
-    if (d.is_rel()) { xi.valid = false; xi.why_invalid = "rel operand (covered by C03)"; return xi; }
+    if (d.is_rel()) {
+      if (!allow_rel_operands()) { xi.valid = false; xi.why_invalid = "rel operand (covered by C03)"; return xi; }
+      o.kind = Opnd::kRel; xi.ops.push_back(o); continue;
+    }
     if (d.data == "dfv") { xi.valid = false; xi.why_invalid = "APX dfv operand"; return xi; }
     bool has_reg = d.is_reg(), has_mem = d.is_mem();
     bool use_mem = has_mem && (!has_reg || c.chance(1, 2));
@@ -424,6 +431,7 @@ inline asmjit::Operand to_asmjit_reg(const Reg& r) {
 
 inline asmjit::Operand to_asmjit(const Opnd& o) {
   using namespace asmjit;
+  if (o.kind == Opnd::kRel) return Label(0);       // emit() creates and binds label 0 first
   if (o.kind == Opnd::kReg) return to_asmjit_reg(o.reg);
   if (o.kind == Opnd::kImm) return Imm(o.imm);
   const Mem& m = o.mem;
@@ -479,6 +487,7 @@ inline asmjit::Error emit(asmjit::BaseEmitter& e, asmjit::InstId id, const XInst
     opt |= InstOptions::kX86_ER;
     opt |= xi.er == 0 ? InstOptions::kX86_RN_SAE : xi.er == 1 ? InstOptions::kX86_RD_SAE : xi.er == 2 ? InstOptions::kX86_RU_SAE : InstOptions::kX86_RZ_SAE;
   }
+  for (const Opnd& o : xi.ops) if (o.kind == Opnd::kRel) { Label l = e.new_label(); e.bind(l); break; }      // label 0, bound where the instruction starts
   e.add_inst_options(opt);
   if (xi.k) e.set_extra_reg(x86::KReg(uint32_t(xi.k)));
   if (ops_out) ops_out->assign(ops, ops + n);
@@ -544,6 +553,7 @@ inline std::string render(const XInst& xi, const char* mnemonic_override = nullp
     s += first ? " " : ", ";
     first = false;
     if (o.kind == Opnd::kReg) s += reg_name(o.reg);
+    else if (o.kind == Opnd::kRel) s += "L0";
     else if (o.kind == Opnd::kImm) s += hex64(o.imm);
     else s += render_mem(o.mem, xi.mode);
     if (i == 0 && xi.k) { char b[16]; snprintf(b, sizeof b, " {k%d}", xi.k); s += b; if (xi.z) s += " {z}"; }
